@@ -554,8 +554,20 @@ let check_P line toks =
      | None -> bump "P-unknown"; report "P" (f ^ "(" ^ a ^ ")") f "<oracle has no such function>" v line)
   | _ -> ()
 
+(* cross-check of the extraction: the same closed terms are evaluated by vm_compute inside Coq (vcheck writes XCheck.v) *)
+let xcheck () =
+  let fens = List.tl (List.tl (List.tl (Array.to_list Sys.argv))) in
+  List.iter (fun f ->
+    let r = match from_fen !keys (bytes_of_string f) with
+      | Ok b -> Printf.sprintf "%s %d %s %s %s" (dec_of_n b.b_hash)
+                  (match legal_moves !keys b with Ok l -> List.length l | _ -> 999)
+                  (dec_of_n b.b_pinned) (dec_of_n b.b_checks) (match get_status b with Ok BOngoing -> "0" | Ok (BCheckMated _) -> "1" | Ok BStalemate -> "2" | Ok _ -> "3" | _ -> "9")
+      | _ -> "rejected" in
+    print_endline r) fens
+
 let () =
   load_keys Sys.argv.(1);
+  if Array.length Sys.argv > 2 && Sys.argv.(2) = "--xcheck" then (xcheck (); exit 0);
   let ic = open_in Sys.argv.(2) in
   diff_oc := open_out Sys.argv.(3);
   if Array.length Sys.argv > 5 then spec_every := int_of_string Sys.argv.(5);
